@@ -305,6 +305,10 @@ def values_equal(st, a, b):
     bytearray (the properties speak of 'equal in value and Python type')."""
     if a is b:
         return True, True
+    if isinstance(a, (bytes, bytearray)) and isinstance(b, (bytes, bytearray)):
+        return (type(a) is type(b) and a == b), True          # concrete fast path
+    if isinstance(a, float) and isinstance(b, float):
+        return (a == b or (a != a and b != b)), True          # NaN equals NaN (C03 normalisation)
     if isinstance(a, SCond) or isinstance(b, SCond):
         # cond ? x : y  compared branch-wise, each branch under its condition
         from .dsl import conj, implies, neg
